@@ -201,6 +201,7 @@ def _run(ctx):
             not c.get('error_runs_aborted') or \
             not c.get('second_cycle_checks') or \
             not c.get('size_cases_above_4MiB') or \
+            not c.get('size_cases_compressed_above_1MiB') or \
             (tier != 'quick' and not c.get('size_cases_above_16MiB'))):
         raise w.HarnessError('vacuous run: %r' % dict(c))
     violations = []
